@@ -25,6 +25,27 @@ struct Ctx { int k, l, Bgbit; TLweParams *tp; TGswParams *gp; TGswKey *key; TGsw
 // sum_p dec_p * e_p  (exact), and l1 norm of m
 static void noise_term(std::vector<uint32_t> &out, Ctx &X) { out.assign(N, 0); std::vector<Torus32> t(N); for (int p = 0; p < X.gp->kpl; p++) { bool z = true; for (int j = 0; j < N; j++) if (X.err[p][j]) { z = false; break; } if (z) continue; ref::negacyclic_mul_fast(t.data(), X.dec[p].coefs, X.err[p].data(), N); for (int j = 0; j < N; j++) out[j] += (uint32_t)t[j]; } }
 
+// the sibling constructors of an FFT-domain TGSW sample: tGswFFTClear + tGswFFTAddH must be the (noiseless, keyless) TGSW sample of 1 -
+// the external product with it is the identity up to the gadget truncation, and it agrees with the converted coefficient-domain sample of 1
+static void fft_addh_cases() {
+    for (auto cf : CFS) {
+        std::string key = fmt("fft-addh/k=%d/l=%d/Bgbit=%d", cf.k, cf.l, cf.Bgbit);
+        if (!take(key)) continue; if (deadline()) return; current(key);
+        TLweParams *tp = new_TLweParams(N, cf.k, 0, 0.25); TGswParams *gp = new_TGswParams(cf.l, cf.Bgbit, tp);
+        TGswSampleFFT *one = new_TGswSampleFFT(gp), *conv = new_TGswSampleFFT(gp); TGswSample *g = new_TGswSample(gp); TLweSample *acc = new_TLweSample(tp), *a1 = new_TLweSample(tp), *a2 = new_TLweSample(tp);
+        tGswFFTClear(one, gp); tGswFFTAddH(one, gp); tGswClear(g, gp); tGswAddH(g, gp); tGswToFFTConvert(conv, g, gp);
+        uint64_t x = cf.k * 100 + cf.l; int rem = 32 - cf.l * cf.Bgbit; int64_t tol = (rem > 0 ? ((int64_t)1 << rem) : 0) + 2 * std::max<int64_t>(1, ((int64_t)1 << (cf.Bgbit - 1)) / 512) * cf.l * (cf.k + 1) + 2; bool ok = true;
+        for (int rep = 0; rep < 3 && ok; rep++) { for (int i = 0; i <= cf.k; i++) for (int j = 0; j < N; j++) acc->a[i].coefsT[j] = rep == 0 ? (Torus32)(j * 2654435761u + i) : rep == 1 ? ((j & 1) ? INT32_MIN : INT32_MAX) : (Torus32)splitmix(x);
+            tLweCopy(a1, acc, tp); tLweCopy(a2, acc, tp); tGswFFTExternMulToTLwe(a1, one, gp); tGswFFTExternMulToTLwe(a2, conv, gp);
+            for (int i = 0; i <= cf.k && ok; i++) for (int j = 0; j < N; j++) { int64_t d1 = ref::sdiff(a1->a[i].coefsT[j], acc->a[i].coefsT[j]), d2 = ref::sdiff(a1->a[i].coefsT[j], a2->a[i].coefsT[j]); if (d1 < 0) d1 = -d1; if (d2 < 0) d2 = -d2;
+                if (d1 > tol || d2 > 4) { violation(key, fmt("external product with tGswFFTClear+tGswFFTAddH (the sample of 1): polynomial %d coefficient %d differs from the accumulator by %lld units (allowed %lld) and from the product with the converted sample of 1 by %lld (k=%d l=%d Bgbit=%d)", i, j, (long long)d1, (long long)tol, (long long)d2, cf.k, cf.l, cf.Bgbit)); ok = false; break; } }
+            eval(2); }
+        nontrivial(1); outcome(mix(cf.l * 100 + cf.Bgbit, cf.k + 50));
+        delete_TLweSample(acc); delete_TLweSample(a1); delete_TLweSample(a2); delete_TGswSample(g); delete_TGswSampleFFT(one); delete_TGswSampleFFT(conv); delete_TGswParams(gp); delete_TLweParams(tp);
+    }
+    sample("fft-addh/k=1/l=3/Bgbit=7: tGswFFTClear + tGswFFTAddH gives the FFT-domain sample of 1: external product = identity up to 2^11 units, equal to the product with tGswToFFTConvert(tGswClear + tGswAddH)");
+}
+
 static void extern_cases() {
     for (auto cf : CFS) for (int noisy = 0; noisy < 2; noisy++) {
         if (quick() && noisy && !(cf.l == 2 && cf.Bgbit == 10) && !(cf.l == 3)) continue;
@@ -103,7 +124,7 @@ static void rotate_cases() {
 int main(int argc, char **argv) {
     init(argc, argv);
     std::string part = opt("part", "all");
-    if (part == "all" || part == "extern") extern_cases();
+    if (part == "all" || part == "extern") { fft_addh_cases(); extern_cases(); }
     if (part == "all" || part == "rotate") rotate_cases();
     return finish();
 }
